@@ -249,6 +249,35 @@ func rnsMachine(rt *rapid.T, c *chain.Chain, wts rnsWeights, oracle func(*rnsWor
 			}
 			check(w.run("delist", s, sp, &rnstypes.MsgDelist{Creator: s.Bech, Name: sp}, nil))
 		},
+		// the life of a listing across a lapse: the holder lists a name, lets it lapse, withdraws the listing (or not), registers
+		// the name again, and somebody tries to buy it
+		"listingAcrossALapse": func(rt *rapid.T) {
+			key := w.drawCanon(rt)
+			n, ok := w.names()[key]
+			if !ok || w.f.Height() >= n.Expires {
+				rt.Skip()
+			}
+			var holder chain.Account
+			found := false
+			for _, a := range w.accs {
+				if a.Bech == n.Value {
+					holder, found = a, true
+				}
+			}
+			if !found {
+				rt.Skip()
+			}
+			coin := sdk.NewInt64Coin("ujkl", rapid.Int64Range(1, 5000).Draw(rt, "askingPrice"))
+			check(w.run("list", holder, key, newMsgList(holder.Bech, key, coin), func(st *rnsStep) { st.Coin = coin }))
+			w.f.SetBlock(n.Expires+rapid.Int64Range(1, 3).Draw(rt, "afterExpiry"), w.f.Time().Add(6e9))
+			w.logf("height %d: %s has lapsed", w.f.Height(), key)
+			if rapid.IntRange(0, 3).Draw(rt, "withdraws") > 0 {
+				check(w.run("delist", holder, key, &rnstypes.MsgDelist{Creator: holder.Bech, Name: key}, nil))
+			}
+			check(w.run("register", holder, key, newMsgRegisterName(holder.Bech, key, 1, "{}", false), nil))
+			buyer := w.drawAcc(rt, "buyer")
+			check(w.run("buy", buyer, key, newMsgBuy(buyer.Bech, key), nil))
+		},
 		"buy": func(rt *rapid.T) {
 			key := w.drawCanon(rt)
 			s := w.drawAcc(rt, "signer")
